@@ -1825,8 +1825,6 @@ class InventoryTreeTransform(DiskTreeTransform):
             except BaseException:
                 mover.rollback()
                 raise
-            else:
-                mover.apply_deletions()
         from bzrformats.inventory_delta import InventoryDelta
 
         if self.final_file_id(self.root) is None:
@@ -1836,6 +1834,10 @@ class InventoryTreeTransform(DiskTreeTransform):
         self._tree.apply_inventory_delta(inventory_delta)
         self._apply_observed_sha1s()
         self._done = True
+        # Discard the replaced content only now that the inventory describes
+        # the new layout: if a deletion fails, the metadata must not be left
+        # describing the old one (the caller's finalize() saves it).
+        mover.apply_deletions()
         self.finalize()
         return _TransformResults(modified_paths, self.rename_count)
 
